@@ -2,6 +2,7 @@ package plush
 
 import (
 	"fmt"
+	"sync/atomic"
 	"unsafe"
 
 	"github.com/gobuffalo/plush/v5/token"
@@ -33,36 +34,43 @@ type compiler struct {
 	program *ast.Program
 	curStmt ast.Statement
 	inCheck bool
-	// loopControl holds a break or continue that a helper's block has run
-	// into while the current statement was evaluated. The evaluators that
-	// run the blocks of one execution share it, so that the signal reaches
-	// the statement being evaluated whichever of them runs it.
-	loopControl *loopSignal
+	// exec stands for the execution (Template.Exec) this evaluator is part of
+	exec *execution
+	// pending is a break or continue that the block of a helper called by
+	// the statement being evaluated has run into. It belongs to this
+	// evaluator alone and does not outlive the statement.
+	pending exitBlockStatment
 }
 
-type loopSignal struct {
-	ctl    exitBlockStatment
-	parent *loopSignal // the signal of the evaluator around a helper's block
-}
+// execution is the identity of one Template.Exec.
+type execution struct{ _ byte }
 
-// root is the signal Template.Exec made: it stands for the execution.
-func (s *loopSignal) root() *loopSignal {
-	for s.parent != nil {
-		s = s.parent
+// blockSignal is how the block of one helper call tells that call's
+// evaluator about a break or continue. Every call has its own: a stored
+// block replayed later, by whichever execution and however many at once,
+// reports to the call that stored it, which is no longer listening.
+type blockSignal struct{ ctl atomic.Int32 }
+
+const (
+	blockContinues int32 = 1
+	blockBreaks    int32 = 2
+)
+
+func (s *blockSignal) raise(ctl int32) {
+	if s != nil {
+		s.ctl.Store(ctl)
 	}
-	return s
 }
 
-// take removes and returns a break or continue raised by a helper's block
-// while the current statement was evaluated. A stored block that is
-// replayed inside another helper's block leaves its signal with the
-// evaluator that defined it, further out: the whole chain is looked at.
-func (s *loopSignal) take() exitBlockStatment {
-	for ; s != nil; s = s.parent {
-		if ctl := s.ctl; ctl != nil {
-			s.ctl = nil
-			return ctl
-		}
+func (s *blockSignal) take() exitBlockStatment {
+	if s == nil {
+		return nil
+	}
+	switch s.ctl.Swap(0) {
+	case blockContinues:
+		return continueObject{}
+	case blockBreaks:
+		return breakObject{}
 	}
 	return nil
 }
@@ -77,6 +85,8 @@ func (c *compiler) compile() (string, error) {
 
 		// statements of blocks executed by an earlier tag are no longer current
 		c.curStmt = nil
+		// outside of a block there is no loop to leave
+		c.pending = nil
 
 		switch node := stmt.(type) {
 		case *ast.ReturnStatement:
@@ -97,7 +107,7 @@ func (c *compiler) compile() (string, error) {
 			if c.curStmt != nil {
 				s = c.curStmt
 			}
-			if be := blockErrorOf(err, c.loopControl); be != nil {
+			if be := blockErrorOf(err, c.exec); be != nil {
 				s = be.stmt
 			}
 			return "", fmt.Errorf("line %d: %w", s.T().LineNumber, err)
@@ -917,6 +927,11 @@ func (c *compiler) stringsOperator(l string, r interface{}, op string) (interfac
 func (c *compiler) evalCallExpression(node *ast.CallExpression) (interface{}, error) {
 	var rv reflect.Value
 
+	var signal *blockSignal
+	if node.Block != nil {
+		signal = &blockSignal{}
+	}
+
 	if node.Callee != nil {
 		c, err := c.evalExpression(node.Callee)
 		if err != nil {
@@ -1027,6 +1042,7 @@ func (c *compiler) evalCallExpression(node *ast.CallExpression) (interface{}, er
 					Context:  c.ctx,
 					compiler: c,
 					block:    node.Block,
+					signal:   signal,
 				}
 				harg := reflect.ValueOf(hargs)
 				if arg.Kind() == reflect.Ptr && reflect.PtrTo(harg.Type()).AssignableTo(arg) {
@@ -1141,6 +1157,11 @@ func (c *compiler) evalCallExpression(node *ast.CallExpression) (interface{}, er
 	res, err := safeCall(rv, args)
 	if err != nil {
 		return nil, fmt.Errorf("could not call %s function: %w", node.Function, err)
+	}
+	if ctl := signal.take(); ctl != nil {
+		// the helper's block ran into a break or continue: it takes effect
+		// when the statement that holds this call is done
+		c.pending = ctl
 	}
 	if len(res) > 0 {
 		if e, ok := res[len(res)-1].Interface().(error); ok && !isNilPointer(e) {
@@ -1374,6 +1395,13 @@ func (c *compiler) evalBlockStatement(node *ast.BlockStatement) (interface{}, er
 	// error the failing statement of the block stays current (for its line)
 	outer := c.curStmt
 
+	// a break or continue raised earlier in the statement this block is part
+	// of (by a helper's block in the condition of an if, say) waits until
+	// that statement is done
+	held := c.pending
+	c.pending = nil
+	defer func() { c.pending = held }()
+
 	res := []interface{}{}
 	for _, s := range node.Statements {
 		verifYield()
@@ -1382,7 +1410,8 @@ func (c *compiler) evalBlockStatement(node *ast.BlockStatement) (interface{}, er
 			return nil, err
 		}
 
-		if ctl := c.loopControl.take(); ctl != nil {
+		if ctl := c.pending; ctl != nil {
+			c.pending = nil
 			if _, exits := i.(exitBlockStatment); !exits {
 				// the statement's own value is what the iteration keeps
 				var kept []interface{}
